@@ -11,8 +11,10 @@ import (
 	"net"
 	"net/http"
 	"net/http/httptest"
+	"net/url"
 	"os"
 	"path/filepath"
+	"sync"
 	"time"
 
 	"github.com/transparency-dev/witness/internal/persistence"
@@ -106,6 +108,40 @@ type omniSvc struct {
 	addr   string
 }
 
+// distSink is a stub distributor: it records what the service's REST distributor pushes.
+type distSink struct {
+	mu   sync.Mutex
+	puts []distPut
+	srv  *httptest.Server
+}
+
+type distPut struct {
+	path string
+	body []byte
+}
+
+func newDistSink() *distSink {
+	d := &distSink{}
+	d.srv = httptest.NewServer(http.HandlerFunc(func(rw http.ResponseWriter, r *http.Request) {
+		b, _ := io.ReadAll(r.Body)
+		d.mu.Lock()
+		d.puts = append(d.puts, distPut{path: r.Method + " " + r.URL.EscapedPath(), body: b})
+		d.mu.Unlock()
+		rw.WriteHeader(200)
+	}))
+	return d
+}
+
+func (d *distSink) take() []distPut {
+	d.mu.Lock()
+	defer d.mu.Unlock()
+	p := d.puts
+	d.puts = nil
+	return p
+}
+
+var omniDistURL string
+
 func startOmni(w *world.World, p persistence.LogStatePersistence) (*omniSvc, error) {
 	signers, witV, err := witnessSigners(w)
 	if err != nil {
@@ -118,7 +154,8 @@ func startOmni(w *world.World, p persistence.LogStatePersistence) (*omniSvc, err
 	ctx, cancel := context.WithCancel(context.Background())
 	s := &omniSvc{cancel: cancel, done: make(chan error, 1), addr: ln.Addr().String()}
 	go func() {
-		s.done <- omniwitness.Main(ctx, omniwitness.OperatorConfig{WitnessKeys: signers, WitnessVerifier: witV, FeedInterval: omniInterval},
+		s.done <- omniwitness.Main(ctx, omniwitness.OperatorConfig{WitnessKeys: signers, WitnessVerifier: witV, FeedInterval: omniInterval,
+			RestDistributorBaseURL: omniDistURL, DistributeInterval: omniInterval},
 			p, ln, &http.Client{Timeout: 5 * time.Second})
 	}()
 	return s, nil
@@ -204,11 +241,36 @@ func execOmni(s omniSched, dir string, seed int64) ([]any, error) {
 		os.Remove(dbPath)
 		os.Remove(dbPath + "-journal")
 	}()
+	sink := newDistSink()
+	defer sink.srv.Close()
+	omniDistURL = sink.srv.URL
 	svc, err := startOmni(w, pers)
 	if err != nil {
 		return nil, err
 	}
 	events := []any{omniEvent{E: "omni.start", Run: tag, Durable: durable, N: s.Start}}
+	// what the distributor pushed since the last look: projected, with path and signature checks
+	drainPuts := func() {
+		for _, pt := range sink.take() {
+			ev := omniEvent{E: "omni.put", Run: tag, K: 0, L: "?"}
+			for _, name := range p.Logs {
+				l := w.Logs[name]
+				want := fmt.Sprintf("PUT /distributor/v0/logs/%s/byWitness/%s/checkpoint", l.ID, url.PathEscape(w.WitKey.Name))
+				if pt.path == want {
+					ev.L = name
+					pr := w.Project(l, pt.body)
+					c := pr.CP
+					ev.Served = &c
+					ev.Cosigned = pr.OK && pr.LogSigValid && pr.WitCosig == 1 && pr.WitForged == 0
+				}
+			}
+			if ev.Served == nil {
+				c := world.CP{B: 99, N: 99, Lines: 99, Ext: 99}
+				ev.Served = &c
+			}
+			events = append(events, ev)
+		}
+	}
 	k := 0
 	get := func(name string) (world.CP, bool, int) {
 		l := w.Logs[name]
@@ -244,6 +306,7 @@ func execOmni(s omniSched, dir string, seed int64) ([]any, error) {
 			}
 			time.Sleep(omniInterval / 10)
 		}
+		drainPuts()
 		k++
 		c := cp
 		events = append(events, omniEvent{E: "omni.obs", Run: tag, K: k, L: name, Served: &c, Cosigned: cos || cp.None, WaitedMS: int(time.Since(t0) / time.Millisecond),
